@@ -630,7 +630,26 @@ def pack_fmt_table(mod) -> Dict[Any, Any]:
     if len(rets) == 1 and isinstance(rets[0].value, ast.Call) and isinstance(rets[0].value.func, ast.Attribute) and rets[0].value.func.attr == "get" \
             and isinstance(rets[0].value.func.value, ast.Name) and isinstance(mod.consts.get(rets[0].value.func.value.id), dict):
         return dict(mod.consts[rets[0].value.func.value.id])
-    return mod.table_function("_pack_fmt")
+    try:
+        return mod.table_function("_pack_fmt")
+    except AnalysisError:
+        # any other shape: the function evaluated once per proto type (a type it raises for is not in the table)
+        params = [a.arg for a in fn.args.args]
+        out: Dict[Any, Any] = {}
+        for t in TYPE_NAMES:
+            paths = Interp(mod, bindings={N(params[0]): t}).run(fn)
+            vals = {p.value for p in paths if p.outcome == "return" and p.value is not None}
+            if len(paths) == 1 and len(vals) == 1 and next(iter(vals))[0] == "c" and isinstance(next(iter(vals))[1], str):
+                out[t] = next(iter(vals))[1]
+            elif all(p.outcome == "raise" for p in paths) and paths:
+                continue
+            elif vals and all(any(x[0] == "sub" and x[1][0] == "c" and isinstance(x[1][1], dict) and x[2][0] == "c" and x[2][1] not in x[1][1] for x in walk(v)) for v in vals):
+                continue            # a lookup of a key the constant table does not hold: KeyError
+            else:
+                raise AnalysisError(f"_pack_fmt({t!r}) does not evaluate to a constant format: {[show(v) for v in vals][:2]}")
+        if not out:
+            raise AnalysisError("_pack_fmt evaluates to no format for any proto type")
+        return out
 
 
 def rule_N4(ctx) -> None:
